@@ -987,3 +987,64 @@ Example afc_roundtrip_nonvacuous :
   /\ open N 16 toy_open dev_mode (toy_chan 0) (repeat 90 5) (1 :: skipn 1 (firstn 27 dst))
      = (Err EAuthentication, repeat 0 5).
 Proof. vm_compute. repeat split; reflexivity. Qed.
+
+
+Lemma app_eq_len_b {A} (x y a b : list A) : length x = length y -> x ++ a = y ++ b -> x = y /\ a = b.
+Proof.
+  revert y; induction x as [|h x IH]; destruct y as [|k y]; cbn; intros Hl H; try discriminate; auto.
+  inv H. destruct (IH y ltac:(lia) H2) as [-> ->]. auto.
+Qed.
+
+(** C39, foreign ciphertexts: with a free-constructor AEAD (sealings under
+    different key, nonce or AD never coincide), whatever one channel end
+    sealed is accepted by another channel end only if that end holds the same
+    key, derives the same nonce for the header's sequence number and has the
+    same label. *)
+Lemma ad_bytes_inj l l' : ad_bytes l = ad_bytes l' -> l = l'.
+Proof. unfold ad_bytes. apply app_inv_head. Qed.
+
+Definition afc_foreign_rejected_stmt : Prop :=
+  forall K TAG aead_seal aead_open garbage, aead_ideal K TAG aead_seal aead_open garbage ->
+  (forall k n ad pt k' n' ad' pt' c,
+     aead_seal k n ad pt = Some c -> aead_seal k' n' ad' pt' = Some c -> k = k' /\ n = n' /\ ad = ad' /\ pt = pt') ->
+  forall m m' (cs co : chan K) dst pt h dst' cs' dst2 lbl seq out,
+    seal K TAG aead_seal m cs dst pt = (Ok h, dst', cs') ->
+    bytes_ok dst' ->
+    open K TAG aead_open m' co dst2 (firstn (N.to_nat (len pt + OVERHEAD TAG)) dst') = (Ok (lbl, seq), out) ->
+    c_key K co = c_key K cs /\ c_label K co = c_label K cs /\ seq = c_seq K cs /\ lbl = c_label K cs
+    /\ compute_nonce (c_nonce K co) seq = compute_nonce (c_nonce K cs) (c_seq K cs)
+    /\ out = pt ++ skipn (length pt) dst2.
+Lemma bytes_ok_firstn n l : bytes_ok l -> bytes_ok (firstn n l).
+Proof. unfold bytes_ok. intros H. rewrite <- (firstn_skipn n l) in H. apply Forall_app in H. tauto. Qed.
+Lemma afc_foreign_rejected_proof : afc_foreign_rejected_stmt.
+Proof.
+  intros K TAG aead_seal aead_open garbage Hid Hinj m m' cs co dst pt h dst' cs' dst2 lbl seq out Hs Hb Ho.
+  pose proof Hid as (Hlen & Hauth & Hg).
+  apply (seal_ok K TAG aead_seal aead_open garbage Hlen Hauth Hg) in Hs.
+  destruct Hs as (w & (n & ct & tag & Hn & Hseal & ->) & -> & Hd & -> & -> & _).
+  pose proof (sealed_as_len K TAG aead_seal aead_open garbage Hlen Hauth Hg cs pt _
+                (ex_intro _ n (ex_intro _ ct (ex_intro _ tag (conj Hn (conj Hseal eq_refl)))))) as Hwl.
+  set (w := ct ++ tag ++ le_bytes 8 (c_seq K cs)) in *.
+  assert (Hf : firstn (N.to_nat (len pt + OVERHEAD TAG)) (w ++ skipn (N.to_nat (len pt + OVERHEAD TAG)) dst) = w).
+  { rewrite <- Hwl. unfold len. rewrite Nat2N.id, firstn_app, Nat.sub_diag, firstn_all. cbn. apply app_nil_r. }
+  rewrite Hf in Ho.
+  assert (Hbw : bytes_ok w).
+  { rewrite <- Hf. now apply bytes_ok_firstn. }
+  destruct (afc_open_authentic_proof K TAG aead_seal aead_open garbage Hid m' co) as [Ha _].
+  apply Ha in Ho; auto. destruct Ho as (pt' & ct' & tag' & n' & Hn' & Hs' & Hw & -> & _ & ->).
+  destruct (Hlen _ _ _ _ _ _ Hseal) as [Hc Ht]. destruct (Hlen _ _ _ _ _ _ Hs') as [Hc' Ht'].
+  unfold w in Hw.
+  assert (Hl : length (ct ++ tag) = length (ct' ++ tag')).
+  { apply (f_equal (@length N)) in Hw. rewrite !app_assoc, !app_length, !length_le_bytes in Hw.
+    rewrite !app_length. lia. }
+  rewrite !app_assoc in Hw. apply app_eq_len_b in Hw; auto. destruct Hw as [Hct Hseq].
+  assert (Hlt : length ct = length ct').
+  { unfold len in Ht, Ht'. rewrite !app_length in Hl. lia. }
+  apply app_eq_len_b in Hct; auto. destruct Hct as [-> ->].
+  pose proof Hn as Hn0. pose proof Hn' as Hn0'.
+  unfold compute_nonce, seq_limit in Hn, Hn'. destruct (u64_max <=? c_seq K cs) eqn:E1; [discriminate|].
+  destruct (u64_max <=? seq) eqn:E2; [discriminate|].
+  apply le_bytes_inj in Hseq; try (rewrite pow_256_8; unfold u64_max, usize_mod in *; lia). subst seq.
+  destruct (Hinj _ _ _ _ _ _ _ _ _ Hseal Hs') as (Hk & Hnn & Had & ->).
+  apply ad_bytes_inj in Had. repeat split; auto. rewrite Hn0, Hn0'. congruence.
+Qed.
